@@ -14,6 +14,7 @@ REG = {
     "C13": ("vf.checks.c13", "C13"),
     "C20": ("vf.checks.c20", "C20"),
     "C18": ("vf.checks.c18", "C18"),
+    "C11": ("vf.checks.c11", "C11"),
     "C05": ("vf.checks.rates_props", "C05"), "C06": ("vf.checks.rates_props", "C06"),
 }
 
